@@ -10,11 +10,17 @@ import (
 func init() { register("C12", propC12) }
 
 func propC12(c *Ctx) {
-	c.Explanation = "Timing (about 3 s), races between timers and replies beyond mutual exclusion, and what the cache contains after an arbitrary history are NOT decided. Decided are the structural necessary conditions: (T1) arp.HandlePacket answers a request only after CheckLocalAddress(target) != 0, with op = reply, sender hardware = the route's local link address, sender protocol = the request's target, target hardware/protocol = the request's sender fields, written on the inbound route (whose remote link address NIC.DeliverNetworkPacket set to the frame's source); it learns (sender protocol -> sender hardware) from every reply and from exactly those requests it answers; requests are broadcast (route with ff:ff:ff:ff:ff:ff) and carry the link endpoint's own address, the local address and the wanted address in the right fields; the IPv6 neighbour solicitation/advertisement code follows the same table (target = bytes 8..24, CheckLocalAddress, solicited|override flags, target link-address option, source address = target, learning). (T2) typestate: changeState is called only from four sites, each requesting a transition that changeState's own switch allows from every entry state possible at that site (state(): to expired only when not expired; checkLinkRequest: to failed only under state == incomplete; add: to ready only for an incomplete or freshly made entry; makeAndAddEntry: to expired, allowed from everywhere); wakers are asserted and done is closed exactly when the entry leaves incomplete; the state word is written only there and by the slot reset. (T3) cache map, ring index, slots and every entry field are touched only with linkAddrCache.mu held; ring reuse: the old key is deleted exactly when it still maps to the recycled slot, BEFORE the slot is overwritten, and the new key is mapped to the slot after it was filled; next advances by one modulo the ring size; the index stays inside the ring. (T4) constants: 3 attempts, 1 s timeout, 1 min age limit, 512 slots, passed to the cache in that order; failed exactly when attempt+1 >= attempts while still incomplete; a request is sent at the top of every iteration and the loop ends on done or when checkLinkRequest says stop. (T5) get: static address first; ready -> the entry's link address; failed -> ErrNoLinkAddress; incomplete -> register the waker and ErrWouldBlock with the entry's done channel; expired or absent -> (no resolver: ErrNoLinkAddress) new incomplete entry with empty link address, waker registered, resolution goroutine started with that entry's done, ErrWouldBlock; state() expires exactly by time.Now().After(expiration). (T6) nothing is sent before resolution: sendSynTCP in handshake.execute and sendUDP in udp Write are reached only when the route needs no resolution or Resolve/resolveRoute returned nil; Route.Resolve stores the learned address only on success. (T7) whether resolution is required at all: IsResolutionRequired is exactly linkCache != nil && RemoteLinkAddress == \"\", and addAddressLocked sets linkCache for every endpoint reference (permanent, replaced or temporary) on a link that needs resolution, under exactly the capability and resolver tests, and nowhere else. T5 also tables ARP's static mapping (only the limited broadcast). (T8) the neighbour cache is built with age limit 1 min, 1 s per resolution attempt and 3 attempts; (T9) an ARP request is stamped Ethernet/IPv4. (T10) package stack and the ARP endpoint narrow nothing. NOT decided: the 3 s bound, timers racing with replies, cache overflow behaviour beyond T3, RemoveWaker's inverted NIC test (observation)."
+	c.Explanation = "Timing (about 3 s), races between timers and replies beyond mutual exclusion, and what the cache contains after an arbitrary history are NOT decided. Decided are the structural necessary conditions: (T1) arp.HandlePacket answers a request only after CheckLocalAddress(target) != 0, with op = reply, sender hardware = the route's local link address, sender protocol = the request's target, target hardware/protocol = the request's sender fields, written on the inbound route (whose remote link address NIC.DeliverNetworkPacket set to the frame's source); it learns (sender protocol -> sender hardware) from every reply and from exactly those requests it answers; requests are broadcast (route with ff:ff:ff:ff:ff:ff) and carry the link endpoint's own address, the local address and the wanted address in the right fields; the IPv6 neighbour solicitation/advertisement code follows the same table (target = bytes 8..24, CheckLocalAddress, solicited|override flags, target link-address option, source address = target, learning). (T2) typestate: changeState is called only from four sites, each requesting a transition that changeState's own switch allows from every entry state possible at that site (state(): to expired only when not expired; checkLinkRequest: to failed only under state == incomplete; add: to ready only for an incomplete or freshly made entry; makeAndAddEntry: to expired, allowed from everywhere); wakers are asserted and done is closed exactly when the entry leaves incomplete; the state word is written only there and by the slot reset. (T3) cache map, ring index, slots and every entry field are touched only with linkAddrCache.mu held; ring reuse: the old key is deleted exactly when it still maps to the recycled slot, BEFORE the slot is overwritten, and the new key is mapped to the slot after it was filled; next advances by one modulo the ring size; the index stays inside the ring. (T4) constants: 3 attempts, 1 s timeout, 1 min age limit, 512 slots, passed to the cache in that order; failed exactly when attempt+1 >= attempts while still incomplete; a request is sent at the top of every iteration and the loop ends on done or when checkLinkRequest says stop. (T5) get: static address first; ready -> the entry's link address; failed -> ErrNoLinkAddress; incomplete -> register the waker and ErrWouldBlock with the entry's done channel; expired or absent -> (no resolver: ErrNoLinkAddress) new incomplete entry with empty link address, waker registered, resolution goroutine started with that entry's done, ErrWouldBlock; state() expires exactly by time.Now().After(expiration). (T6) nothing is sent before resolution: sendSynTCP in handshake.execute and sendUDP in udp Write are reached only when the route needs no resolution or Resolve/resolveRoute returned nil; Route.Resolve stores the learned address only on success. (T7) whether resolution is required at all: IsResolutionRequired is exactly linkCache != nil && RemoteLinkAddress == \"\", and addAddressLocked sets linkCache for every endpoint reference (permanent, replaced or temporary) on a link that needs resolution, under exactly the capability and resolver tests, and nowhere else. T5 also tables ARP's static mapping (only the limited broadcast). (T8) the neighbour cache is built with age limit 1 min, 1 s per resolution attempt and 3 attempts; (T9) an ARP request is stamped Ethernet/IPv4. (T10) package stack and the ARP endpoint narrow nothing. (T11) a route's destination is fixed when it is made: RemoteAddress, NextHop, NetProto and the endpoint reference are written only by makeRoute, FindRoute (on the route it just made) and the request emitters' own fresh literals; RemoteLinkAddress only by Resolve, the NIC's inbound route and those literals - nobody retargets a held route, so a link address resolved for one next hop is never used for another. (T12) the inbound route on which a request is answered carries the link endpoint's own address as local link address (shared with C13/I4). NOT decided: the 3 s bound, timers racing with replies, cache overflow behaviour beyond T3, RemoveWaker's inverted NIC test (observation)."
 
 	stackCtorRule(c, c.Rule("T8", "K7 exact-guard site table", "the neighbour cache is built with age limit 1 min, 1 s per resolution attempt and 3 attempts", 3))
 	arpRequestRule(c, c.Rule("T9", "K7 exact-guard site table (shared with C06/E9)", "an ARP request is stamped Ethernet/IPv4", 1))
 	c.NoNewNarrowing(c.Rule("T10", "K8 narrowing (closed world, reviewed table)", "package stack and the ARP endpoint narrow nothing", 2), []string{"/net-protocol/stack", "/network/arp"}, nil)
+	routeImmutableRule(c, c.Rule("T11", "K3 confinement (module-wide)", "a route's destination is fixed when it is made: nobody retargets a route, so a link address resolved for one next hop is never used for another (IsResolutionRequired, T7, looks only at RemoteLinkAddress)", 4))
+	t12 := c.Rule("T12", "K5 site table (shared with C13/I4)", "the inbound route a request is answered on carries the NIC's OWN link address as local link address (from the link endpoint, not from the frame)", 1)
+	if fn := c.Fn(t12, "(*stack.NIC).DeliverNetworkPacket"); fn != nil {
+		pa := "iface:stack.NetworkProtocol.ParseAddresses($0.stack.networkProtocols[$4]#0, buffer.VectorisedView.First($5))"
+		c.CheckSitesPresent(t12, fn, []SiteSpec{{Kind: "call", Target: "stack.makeRoute", Args: []string{"$4", pa + "#1", pa + "#0", "iface:stack.LinkEndpoint.LinkAddress($1)", "*"}, N: 1, Why: "local link address = the link endpoint's own address: what ARP replies and neighbour advertisements announce"}})
+	}
 	t1 := c.Rule("T1", "K1 guards + K5 field provenance", "ARP/NDP reply and learning tables", 30)
 	if fn := c.Fn(t1, "(*arp.endpoint).HandlePacket"); fn != nil {
 		in := "buffer.VectorisedView.First($2)"
@@ -350,6 +356,35 @@ func linkEntryTypestateRule(c *Ctx, t2 string) {
 				}
 			} else {
 				c.Broken(t2, FuncName(fn)+"/ready-from-cached-only-if-incomplete", "receiver is not a phi any more")
+			}
+		}
+	}
+}
+
+// routeImmutableRule: which functions may write the fields of stack.Route.
+// Route values are handed around by value and by Clone; the remote address and
+// next hop are written only while the route is being made (makeRoute's
+// literal, FindRoute on the route it just made), the resolved link address
+// only by Resolve and by the NIC for the inbound route. Anything else would
+// let a route keep the link address of a previous destination.
+func routeImmutableRule(c *Ctx, rule string) {
+	lar4, lar6 := "(*arp.protocol).LinkAddressRequest", "(*ipv6.protocol).LinkAddressRequest"
+	c.OnlyIn(rule, "store to Route.RemoteAddress", c.FieldStores("stack.Route", "RemoteAddress"), "stack.makeRoute", lar6)
+	c.OnlyIn(rule, "store to Route.NextHop", c.FieldStores("stack.Route", "NextHop"), "(*stack.Stack).FindRoute")
+	c.OnlyIn(rule, "store to Route.RemoteLinkAddress", c.FieldStores("stack.Route", "RemoteLinkAddress"), "(*stack.Route).Resolve", "(*stack.NIC).DeliverNetworkPacket", lar4, lar6)
+	c.OnlyIn(rule, "store to Route.NetProto", c.FieldStores("stack.Route", "NetProto"), "stack.makeRoute")
+	c.OnlyIn(rule, "store to Route.ref", c.FieldStores("stack.Route", "ref"), "stack.makeRoute", "(*stack.Route).Release")
+	c.OnlyIn(rule, "store to Route.LocalAddress", c.FieldStores("stack.Route", "LocalAddress"), "stack.makeRoute", "(*ipv6.endpoint).handleICMP", lar6)
+	// the request emitters and FindRoute write only a route they have just made
+	for _, name := range []string{lar4, lar6, "(*stack.Stack).FindRoute"} {
+		fn := c.Fn(rule, name)
+		if fn == nil {
+			continue
+		}
+		for _, f := range []string{"RemoteAddress", "NextHop", "RemoteLinkAddress", "LocalAddress"} {
+			for _, st := range StoresTo(fn, "stack.Route", f) {
+				base := Term(st.Addr)
+				c.Check(strings.HasPrefix(base, "&new(stack.Route)") || strings.HasPrefix(base, "&local(stack.Route)"), rule, name+"/own-route:"+base, c.pos(st), "the field is set on a route made in this call", "a field of a route that was not made in this call is overwritten")
 			}
 		}
 	}
